@@ -35,7 +35,7 @@ func cmp(sp synthfont.Spec, text []rune, feat bool) {
 }
 
 func TestProbeSynthDiff(t *testing.T) {
-	cmp(synthfont.Spec{Kind: "reverse-chain", N: 2, Back: 2, Feature: "locl"}, []rune("bbbbbb"), false)
+	cmp(synthfont.Spec{Kind: "reverse-chain", N: 2, Back: 2, Feature: "locl"}, []rune("aaaaaa"), false)
 	cmp(synthfont.Spec{Kind: "reverse-chain", N: 2, Back: 2, Feature: "locl"}, []rune("xxbbbb"), false)
 	cmp(synthfont.Spec{Kind: "reverse-chain", N: 2, Back: 2, Feature: "locl"}, []rune("xabbbb"), false)
 }
